@@ -33,7 +33,7 @@ class C07(Prop):
     assumptions = ["loopback UDP between one socket pair is ordered", "kernel datagram loss makes a history inconclusive"]
     anchors = ["aioswitcher.bridge:SwitcherBridge.start", "aioswitcher.bridge:UdpClientProtocol.datagram_received",
                "aioswitcher.bridge:_parse_device_from_datagram"]
-    min_evaluations = {"quick": 10_000, "thorough": 400_000}
+    min_evaluations = {"quick": 80_000, "thorough": 800_000}
     budget_s = {"quick": 60, "thorough": 900}
 
     def selftest(self):
@@ -51,7 +51,7 @@ class C07(Prop):
         self.rig.uninstall(asyncio.get_running_loop())
 
     def cases(self, tier, seed, shard, nshards):
-        n = {"quick": 320, "thorough": 12_000}[tier]
+        n = {"quick": 2_400, "thorough": 30_000}[tier]
         for i in range(shard, n, nshards):
             yield {"i": i, "seed": seed}
 
